@@ -4,7 +4,9 @@
 // shuffled map insertion orders; child-level cases divide the fair share a
 // parent received in a previous call (what proportion.setFairShareForQueues
 // does; that method is unexported, its three lines are replayed here on the real
-// SetResourcesShare / GetFairShare).
+// SetResourcesShare / GetFairShare). The REAL recursion (proportion plugin opened
+// on a session holding a generated queue hierarchy) is driven by the hierarchical
+// stream in tree.go.
 package c09
 
 import (
@@ -186,7 +188,7 @@ func Eval(in Input, r *u.Rng) (string, Obs) {
 		}
 		res[j] = fmt.Sprintf("{| rc_total := %s; rc_queues := %s; rc_obs := %s |}", Qs(in.Totals[j]), u.List(qs), u.List(obs))
 	}
-	term := fmt.Sprintf("{| k_kvalue := %s; k_res := %s; k_returned := %s |}", Qs(in.K), u.List(res), u.Bool(o.Returned))
+	term := fmt.Sprintf("(Flat {| k_kvalue := %s; k_res := %s; k_returned := %s |})", Qs(in.K), u.List(res), u.Bool(o.Returned))
 	return term, o
 }
 
@@ -624,12 +626,17 @@ func Run(dir string, seed uint64, n int, tier string) error {
 			i++
 		}
 	}
-	out.Stats["rule"] = "sibling-queue sets drawn from one splitmix64 stream after a fixed boundary corpus: 5/8 dyadic (integers and binary fractions, band weights summing to a power of two, k in {0,1,3,1/2}) so that float arithmetic is mostly exact, 2/8 decimal (weights 1..10 and 0.3, k in {0.5,0.7,2,10}, usage fractions), 1/8 malformed (negative weights / usage / requests / limits / totals, k<0); a quarter of the cases is followed by a child-level case dividing the fair share one of its queues received; each case is run under 8 map insertion orders. non-trivial = surplus was handed out among >= 2 queues; distinct by input. The classes exact / compared-within-1e-6 / skipped-near-cliff are decided by the model and printed by the shards (line CLASSES)."
+	// the hierarchical stream: the real proportion plugin opened on generated queue trees
+	nTrees := n / 3
+	runTrees(out, root, nTrees)
+	out.Stats["rule"] = "FLAT STREAM: sibling-queue sets drawn from one splitmix64 stream after a fixed boundary corpus: 5/8 dyadic (integers and binary fractions, band weights summing to a power of two, k in {0,1,3,1/2}) so that float arithmetic is mostly exact, 2/8 decimal (weights 1..10 and 0.3, k in {0.5,0.7,2,10}, usage fractions), 1/8 malformed (negative weights / usage / requests / limits / totals, k<0); a quarter of the cases is followed by a child-level case dividing the fair share one of its queues received; each case is run under 8 map insertion orders. TREE STREAM (n/3 cases after a corpus of 7 hierarchies taken from proportion_test and from the zero-share-parent shapes): the REAL proportion plugin is opened (OnSessionOpen) on a real session holding a generated queue hierarchy and every queue's fair share is read back (Session.QueueFairShare for CPU / memory, the queue_fair_share_gpu gauge for GPUs). Shape: 1-3 top-level queues, each with 1-4 children (1/8: a top-level leaf), a child has 1-3 children of its own with probability 1/3, a grandchild 1-2 with probability 1/5, at most 24 queues, depth 2-4 (distribution: tree:depth:*, tree:queues:*). Per sibling set: 1-3 over-quota priorities, creation-time ties, per band weights summing to a power of two (3/4 dyadic trees) or decimal weights (1/4 decimal trees: also quotas with tenths, k in {0.5,0.7,2,10}); quota 0 (1/5), unlimited -1 (1/10), limit (1/4), limit 0 (1/16); in 3/4 of the trees the children's quotas fit into their parent's. CPU and memory are each, per tree, unlimited everywhere (-1/-1/weight 1) / empty everywhere (0/0/0) / generated like GPUs. Requests come from jobs (1-3 per leaf, 1-3 pending tasks, whole GPUs or a fraction 0.25/0.5/0.75, CPU, memory; 1/10 running; 1/8 idle leaves; 1/8 very hungry leaves; 1/10 of the inner queues hold a job of their own) and are rolled up by the plugin. k as in the flat stream, historical usage per queue per resource when k != 0. Every third tree gets a ZERO-SHARE scenario on one inner queue above a team that holds GPU quota and asks for more: frozen (limit 0 in all three resources), starved (quota 0, a sibling of higher over-quota priority asks for 128 GPUs), zero-weight (quota 0, weight 0), frozen in two of the three resources only; counted on the OBSERVED fair shares: tree:zero_share_parents_with_non_idle_subtree = inner queues whose observed fair share is 0 in all three resources while a child has min(deserved, capped request) > 0 in some resource, tree:parents_zero_in_two_resources_with_non_idle_subtree likewise with exactly two zero resources. non-trivial = surplus was handed out among >= 2 queues (flat) / some queue below the top level received more than its in-quota part (tree); distinct by input. The classes exact / compared-within-1e-6 / skipped-near-cliff of every division (flat: per resource; tree: per sibling set and resource) are decided by the model and printed by the shards (line CLASSES; TREECLASSES = hierarchies whose divisions are all exact, where the whole-tree model result is compared at every queue / other hierarchies)."
 	out.Stats["insertion_orders_per_case"] = shuffles
 	out.Flags = true // flag 1: real results differ between orders at a certified tie / rounding cliff
 	out.Extra = append(out.Extra,
 		"Definition cl := Eval vm_compute in run_classes cases.",
-		"Goal True. let c := eval unfold cl in cl in idtac \"CLASSES\" c. exact I. Qed.")
+		"Goal True. let c := eval unfold cl in cl in idtac \"CLASSES\" c. exact I. Qed.",
+		"Definition tcl := Eval vm_compute in run_tree_classes cases.",
+		"Goal True. let c := eval unfold tcl in tcl in idtac \"TREECLASSES\" c. exact I. Qed.")
 	_ = strings.Join
 	return out.Flush()
 }
